@@ -58,7 +58,7 @@ func checkC10(c *vkit.Ctx) {
 		return
 	}
 	lab := NewLab(p, "")
-	n := c.N(300, 10000)
+	n := c.N(1000, 60000)
 	for i := 0; i < n; i++ {
 		if !c.Mine(i) {
 			continue
